@@ -92,7 +92,8 @@ def as_arrays(trajs, rng=None, mixed=False):
     return [np.array(t, dtype=dt) for t in trajs]
 
 
-FORMS = ['list_of_lists', 'list_of_arrays', 'mixed_arrays', 'statetraj', 'array2d', 'list_of_ints', 'array1d']
+FORMS = ['list_of_lists', 'list_of_arrays', 'mixed_arrays', 'statetraj', 'array2d', 'list_of_ints', 'array1d', 'per_array_narrow',
+         'unsigned_mixed']
 
 
 def to_form(trajs, form, rng):
@@ -111,9 +112,39 @@ def to_form(trajs, form, rng):
     if form == 'narrow_arrays':
         dt = min_dtype(trajs)
         return [np.array(t, dtype=dt) for t in trajs]
+    if form == 'per_array_narrow':
+        # every array in the narrowest signed dtype that holds ITS OWN values (the arrays of one set differ in width)
+        return [np.array(t, dtype=min_dtype([t])) for t in trajs]
+    if form == 'unsigned_mixed' and all(x >= 0 for t in trajs for x in t):
+        # signed and unsigned widths side by side (not safely castable into each other: the common dtype is wider than both)
+        out = []
+        for k, t in enumerate(trajs):
+            hi = max(t) if t else 0
+            fam = [dt for dt in (np.int8, np.uint8, np.int16, np.uint16, np.int32, np.uint32, np.int64) if hi <= np.iinfo(dt).max]
+            out.append(np.array(t, dtype=fam[0] if k % 2 == 0 else (fam[1] if len(fam) > 1 else fam[0])))
+        return out
     if form == 'statetraj':
         return mh.StateTraj(as_arrays(trajs, rng))
     return as_arrays(trajs, rng)
+
+
+def special_sets(rng):
+    """trajectory sets whose CONTAINER shape is the point (learned from seeded changes): (trajs, form, tag)"""
+    # > 32 trajectories, 0-based contiguous alphabet with > 127 states, wide labels only in the leading trajectories and
+    # narrow (int8) trajectories at the end: the common dtype must be taken over ALL arrays
+    n = 131
+    lead = [list(range(n)) + [rng.randrange(n) for _ in range(20)] for _ in range(2)]
+    mid = [[rng.randrange(n) for _ in range(rng.randint(2, 6))] for _ in range(33)]
+    tail = [[rng.randrange(100) for _ in range(rng.randint(2, 6))] for _ in range(4)]
+    yield lead + mid + tail, 'per_array_narrow', 'many_trajs_narrow_tail'
+    # the same with a 1-based alphabet
+    yield [[x + 1 for x in t] for t in lead + mid + tail], 'per_array_narrow', 'many_trajs_narrow_tail'
+    # signed before unsigned, labels beyond the signed range only in the unsigned arrays, contiguous alphabet
+    a = [rng.randrange(100) for _ in range(30)] + list(range(100))
+    b = list(range(100, 201)) + [rng.randrange(201) for _ in range(30)]
+    yield [a, b], 'unsigned_mixed', 'signed_then_unsigned'
+    yield [a, b, [rng.randrange(50) for _ in range(10)]], 'unsigned_mixed', 'signed_then_unsigned'
+    yield [[x + 1 for x in a], [x + 1 for x in b]], 'unsigned_mixed', 'signed_then_unsigned'
 
 
 # --------------------------------------------------------------------------- matrices (C04, C14)
